@@ -73,6 +73,8 @@ impl<T: Send + Sync + 'static> Buffer<T> {
             return f(&data);
         }
         mem::drop(data);
+        #[cfg(feature = "verif-hooks")]
+        egglog_concurrency::verif::yield_point(egglog_concurrency::verif::site::UF_RESIZE);
         let mut data = self.data.lock();
         if data.len() < len {
             let len = len.next_power_of_two();
@@ -83,6 +85,8 @@ impl<T: Send + Sync + 'static> Buffer<T> {
                 result
             });
         }
+        #[cfg(feature = "verif-hooks")]
+        egglog_concurrency::verif::yield_point(egglog_concurrency::verif::site::UF_RESIZE);
         mem::drop(data);
         self.with_access(len, f, init)
     }
